@@ -52,6 +52,20 @@ Proof. vm_compute. reflexivity. Qed.
 Example LC_roundtrip_unnamed : M_parse U0 F1 (M_explain_gsub U0 F1 LC) = POk LC.
 Proof. vm_compute. reflexivity. Qed.
 
+(* GSUB6: chained context, three forms *)
+Definition LH : list lookup :=
+  [ mkLookup 6 4 [Chn (Chain1 [1; 4] [[([2; 3], [1], [], [(1, 0)]); ([], [], [9; 8], [])]; [([], [2], [3], [(2, 1)])]]);
+                  Chn (Chain2 [2] [[3]] [[1; 2]; [5]] [] [[([1; 0], [2], [0], [(0, 0)])]; []; [([], [], [], [])]]);
+                  Chn (Chain3 [[1]; [2; 3]] [[4]] [] [(3, 0)]);
+                  Chn (Chain3 [] [[]; [5]] [[6]; [7]] [])];
+    mkLookup 5 0 [Ctx (SeqCtx3 [[1]] [])] ].
+Example F0_no_chain : no_chain_names F0 = true.  Proof. vm_compute. reflexivity. Qed.
+Example LH_wf : forallb (gsub_lookup_wf6 F0) LH = true.  Proof. vm_compute. reflexivity. Qed.
+Example LH_roundtrip : M_parse U0 F0 (M_explain_gsub U0 F0 LH) = POk LH.
+Proof. vm_compute. reflexivity. Qed.
+Example LH_roundtrip_unnamed : M_parse U0 F1 (M_explain_gsub U0 F1 LH) = POk LH.
+Proof. vm_compute. reflexivity. Qed.
+
 Example LG_wf : forallb (gsub_lookup_wf F0) LG = true.  Proof. vm_compute. reflexivity. Qed.
 Example LP_wf : forallb (gpos_lookup_wf F0) LP = true.  Proof. vm_compute. reflexivity. Qed.
 Example LG_wf1 : forallb (gsub_lookup_wf F1) LG = true.  Proof. vm_compute. reflexivity. Qed.
